@@ -102,44 +102,53 @@ def k5_resolved(k, v, c1, c2, q):
     )
 
 
-def _pairs_contract(target, ctx, opts, params, requires, name=None):
+def _pairs_contract(target, ctx, opts, params, requires):
     """getKerningPairs exists twice (KernFeatureWriter.getKerningPairs and kernFeatureWriter2.get_kerning_pairs, same
-    loop); one contract text, instantiated with the expression that denotes the context / the options."""
+    loop); one contract text, instantiated with the expression that denotes the context / the options.
+
+    Two variants per function: `only` (nothing invented, nothing twice: ghost `src` maps emitted position -> kerning index)
+    and `all` (nothing lost: ghost `pos` maps kerning index -> emitted position).  Together in one proof the two maps are
+    inverse to each other, and z3's E-matching chases src[pos[src[..]]] terms until the time-out."""
     KERN = f"{ctx}.font.kerning"
     ARGS = "side1Classes, side2Classes"
     KEPT = f"k5_kept({{k}}, {KERN}[{{k}}], {ARGS}, {ctx}.glyphSet)"
     RES = f"k5_resolved({{k}}, {KERN}[{{k}}], {ARGS}, {opts}.quantization)"
-    return contract(
-        target,
-        name=name,
-        props=["C05"],
-        params=params,
-        returns=List(KP),
-        requires=requires + [f"{opts}.quantization >= 1"],  # as for quantize
+    common = dict(props=["C05"], params=params, returns=List(KP), requires=requires + [f"{opts}.quantization >= 1"],  # as for quantize
+                  locals={"result": List(KP)},
+                  merge_branches=False)  # the paths of the filters stay apart: smaller terms
+    APPEND = "result.append(KerningPair(side1, side2, value))"
+    LOOP = "for ((side1, side2), value) in kerning.items()"
+    contract(
+        target, name="only", **common,
         ensures={
             # nothing invented: every emitted pair is a surviving kerning item, resolved and quantised
             "only": "all(any(" + KEPT.format(k="k") + " and result[n] == " + RES.format(k="k") + f" for k in {KERN}) for n in range(len(result)))",
-            # nothing lost: every surviving kerning item is emitted
-            "all": "all(implies(" + KEPT.format(k=f"list({KERN})[a]") + ", any(result[n] == " + RES.format(k=f"list({KERN})[a]") + f" for n in range(len(result)))) for a in range(len({KERN})))",
-            # exactly one pair per surviving item (no duplicates: a kerning item is applied once)
+            # at most one pair per kerning item (a kerning item is applied once)
             "count": f"len(result) <= len({KERN})",
         },
         canaries={"keeps-everything": f"len(result) == len({KERN})"},
-        locals={"result": List(KP)},
-        ghost_vars={"src": (List(INT), "[]"), "pos": (Dict(INT, INT), "{}")},
-        ghost={"result.append(KerningPair(side1, side2, value))": ["pos = {**pos, i: len(src)}", "src = src + [i]"]},
-        loops={
-            "for ((side1, side2), value) in kerning.items()": Loop(
-                index="i", seq="K",
-                invariants={
-                    "len": "len(src) == len(result) and len(src) <= i",
-                    "src": "all(0 <= src[n] and src[n] < i and " + KEPT.format(k="K[src[n]]") + " and result[n] == " + RES.format(k="K[src[n]]") + " for n in range(len(src)))",
-                    "cover": "all(implies(" + KEPT.format(k="K[a]") + ", a in pos and 0 <= pos[a] and pos[a] < len(src) and src[pos[a]] == a) for a in range(i))",
-                    # each item is emitted at most once, in kerning order
-                    "once": "all(src[n] < src[n + 1] for n in range(len(src) - 1))",
-                },
-            )
+        ghost_vars={"src": (List(INT), "[]")},
+        ghost={APPEND: ["src = src + [i]"]},
+        loops={LOOP: Loop(index="i", seq="K", invariants={
+            "len": "len(src) == len(result) and len(src) <= i",
+            "src": "all(0 <= src[n] and src[n] < i and " + KEPT.format(k="K[src[n]]") + " and result[n] == " + RES.format(k="K[src[n]]") + " for n in range(len(src)))",
+            # each item is emitted at most once, in kerning order (two positions, not n and n + 1: a successor term under
+            # the quantifier is a matching loop)
+            "once": "all(all(implies(a < b, src[a] < src[b]) for b in range(len(src))) for a in range(len(src)))",
+        })},
+    )
+    contract(
+        target, name="all", **common,
+        ensures={
+            # nothing lost: every surviving kerning item is emitted
+            "all": "all(implies(" + KEPT.format(k=f"list({KERN})[a]") + ", any(result[n] == " + RES.format(k=f"list({KERN})[a]") + f" for n in range(len(result)))) for a in range(len({KERN})))",
         },
+        canaries={"drops-everything": "len(result) == 0"},
+        ghost_vars={"pos": (Dict(INT, INT), "{}")},
+        ghost={APPEND: ["pos = {**pos, i: len(result) - 1}"]},
+        loops={LOOP: Loop(index="i", seq="K", invariants={
+            "cover": "all(implies(" + KEPT.format(k="K[a]") + ", a in pos and 0 <= pos[a] and pos[a] < len(result) and result[pos[a]] == " + RES.format(k="K[a]") + ") for a in range(i))",
+        })},
     )
 
 
@@ -208,8 +217,6 @@ for _k, (_c1, _c2) in _KINDS.items():
         "KPair_" + _k,
         fields={"side1": GCLS if _c1 else STR, "side2": GCLS if _c2 else STR, "value": REAL},
         derived={"firstIsClass": _const_field(_c1), "secondIsClass": _const_field(_c2)},
-        # run time: the sides are plain str / tuple values (dict keys), not objects to be proxied
-        views={"side1": lambda o: o.side1, "side2": lambda o: o.side2},
         isa=("KerningPair",),
         notes=f"KerningPair of kind {_k}; firstIsClass/secondIsClass constants are proved on the real properties",
     )
@@ -386,9 +393,10 @@ def _pairs_build(case):
     return {"self": w, "side1Classes": s1, "side2Classes": s2}
 
 
-CONTRACTS["ufo2ft.featureWriters.kernFeatureWriter:KernFeatureWriter.getKerningPairs"].runtime = Runtime(
+for _v in ("only", "all"):
+  CONTRACTS[f"ufo2ft.featureWriters.kernFeatureWriter:KernFeatureWriter.getKerningPairs#{_v}"].runtime = Runtime(
     _pairs_cases, _pairs_build, call=lambda fn, a: fn(a["self"], a["side1Classes"], a["side2Classes"])
-)
+  )
 
 
 def _pairs2_build(case):
@@ -400,7 +408,8 @@ def _pairs2_build(case):
     return {"context": w.context, "options": w.options, "side1Classes": s1, "side2Classes": s2}
 
 
-CONTRACTS["ufo2ft.featureWriters.kernFeatureWriter2:get_kerning_pairs"].runtime = Runtime(_pairs_cases, _pairs2_build)
+for _v in ("only", "all"):
+    CONTRACTS[f"ufo2ft.featureWriters.kernFeatureWriter2:get_kerning_pairs#{_v}"].runtime = Runtime(_pairs_cases, _pairs2_build)
 
 
 def _wrap_glyphs(o):
@@ -425,10 +434,12 @@ def _rule_build(d):
     from ufo2ft.featureWriters.kernFeatureWriter import KernFeatureWriter, KerningPair
 
     c1, c2 = _KINDS[d["kind"]]
-    s1 = ("A", "Aacute") if c1 else "A"
-    s2 = ("V", "W") if c2 else "V"
-    defs1 = {("A", "Aacute"): ast.makeGlyphClassDefinition("kern1.A", ["A", "Aacute"])}
-    defs2 = {("V", "W"): ast.makeGlyphClassDefinition("kern2.V", ["V", "W"])}
+    # class tuples are atoms (objects) in the contract vocabulary: the pair's side IS the key object of the class map, as in
+    # the writer (makeAllGlyphClassDefinitions keys the maps by pair.side1 / pair.side2 themselves)
+    k1, k2 = ("A", "Aacute"), ("V", "W")
+    s1, s2 = (k1 if c1 else "A"), (k2 if c2 else "V")
+    defs1 = {k1: ast.makeGlyphClassDefinition("kern1.A", ["A", "Aacute"])}
+    defs2 = {k2: ast.makeGlyphClassDefinition("kern2.V", ["V", "W"])}
     return {"self": KernFeatureWriter(), "pair": KerningPair(s1, s2, d["value"]), "side1Classes": defs1, "side2Classes": defs2, "rtl": d["rtl"]}
 
 
